@@ -132,7 +132,21 @@ theorem setPiData_forest (f : Forest) (n : Nat) (d : Option Str) :
     · intro h; exact absurd rfl h
     · intro _; rfl
 
-/-- A framed call leaves the forest alone, or adds a parentless leaf on a new handle, or flips the consolidation
+/-- The setters, node creation and `set_text_consolidation`. -/
+def simpleCall : Forest.XCall → Bool
+  | .call (.setElementName _ _) | .call (.setText _ _) | .call (.setComment _ _) | .call (.setPiData _ _) => true
+  | .newNode _ => true
+  | .setConsolidation _ => true
+  | _ => false
+
+theorem framed_of_simpleCall {c : Forest.XCall} (h : simpleCall c = true) : c.framed = true := by
+  cases c with
+  | call k => cases k <;> first | rfl | cases h
+  | newNode v => rfl
+  | setConsolidation b => rfl
+  | _ => cases h
+
+/-- A simple call leaves the forest alone, or adds a parentless leaf on a new handle, or flips the consolidation
     flag, or sets the value of the one node in `writtenParents`. -/
 inductive FramedShape (f : Forest) (c : Forest.XCall) (f' : Forest) : Prop
   | same (h : f' = f)
@@ -140,7 +154,7 @@ inductive FramedShape (f : Forest) (c : Forest.XCall) (f' : Forest) : Prop
   | fresh (v : Value) (h : f' = (f.newNode v).1)
   | setv (n : Nat) (v : Value) (hw : c.writtenParents f = [n]) (h : f' = specSetValue n v f)
 
-theorem framedShape (s : Store) (c : Forest.XCall) (hf : c.framed = true) :
+theorem framedShape (s : Store) (c : Forest.XCall) (hf : simpleCall c = true) :
     FramedShape s.forest c (c.run s).1.forest := by
   cases c with
   | call k =>
@@ -167,7 +181,7 @@ theorem framedShape (s : Store) (c : Forest.XCall) (hf : c.framed = true) :
   | _ => cases hf
 
 /-- **The general frame on the framed domain** (whatever the call answers). -/
-theorem frame_general_framed {s : Store} {c : Forest.XCall} (inv : s.forest.Inv) (hf : c.framed = true)
+theorem frame_general_framed {s : Store} {c : Forest.XCall} (inv : s.forest.Inv) (hf : simpleCall c = true)
     {h : Nat} (hl : s.forest.isLive h = true) (hnw : h ∉ c.writtenParents s.forest) :
     Forest.FrameAt s.forest (c.run s).1.forest h ∧ (c.run s).1.forest.parent? h = s.forest.parent? h := by
   rcases framedShape s c hf with e | ⟨b, e⟩ | ⟨v, e⟩ | ⟨n, v, hw, e⟩
